@@ -49,7 +49,9 @@ class FiniteAtmosphericLayer(AtmosphericLayer):
         self.oversampling = oversampling
         self.center = np.zeros(2)
 
-        self._original_rng = np.random.default_rng(seed)
+        # Take a snapshot: if `seed` is a Generator, default_rng() returns that very object, and
+        # anything the caller draws from it later would change what reset() replays.
+        self._original_rng = copy.deepcopy(np.random.default_rng(seed))
 
         self.reset()
 
